@@ -152,6 +152,9 @@ func main() {
 			undecided = append(undecided, rep.Name+": "+rep.Err)
 			continue
 		}
+		if rep.BindErr != "" {
+			undecided = append(undecided, rep.Name+": "+rep.BindErr)
+		}
 		for _, u := range rep.Used {
 			assumptions[u] = true
 		}
